@@ -26,7 +26,7 @@ pub fn run_check(prop: &str, _args: &[String]) -> i32 {
 }
 
 pub fn find_image(name: &str) -> Option<ImageSet> {
-    for g in [images::G9, images::G10, images::G12, images::G12B, images::G16] {
+    for g in [images::G9, images::G10, images::G12, images::G12B, images::G12R0, images::G12R1, images::G12R3, images::G12V2, images::G16] {
         for k in ["libfmt", "empty", "data", "data-last-table", "zero", "compressed", "compressed-boundary", "compressed-straddle", "backing", "backing-short", "backing-long", "chain2", "shortl1"] {
             if !(name.starts_with(g.name) || name.starts_with("libfmt")) {
                 continue;
@@ -209,6 +209,10 @@ fn seq_family(prop: &str) -> i32 {
             SeqPlan { geo: images::G12B, images: vec!["libfmt", "compressed", "compressed-straddle", "compressed-boundary", "backing", "zero"], cfgs: vec!["small"], depth: 3, secs: 120 },
             SeqPlan { geo: images::G10, images: vec!["zero", "compressed", "compressed-straddle", "backing", "backing-short"], cfgs: vec!["small"], depth: 4, secs: 200 },
             SeqPlan { geo: images::G16, images: vec!["libfmt"], cfgs: vec!["default"], depth: 3, secs: 60 },
+            SeqPlan { geo: images::G12R0, images: vec!["libfmt", "data"], cfgs: vec!["small"], depth: 3, secs: 60 },
+            SeqPlan { geo: images::G12R1, images: vec!["libfmt", "data"], cfgs: vec!["small"], depth: 3, secs: 60 },
+            SeqPlan { geo: images::G12R3, images: vec!["libfmt", "data"], cfgs: vec!["small"], depth: 3, secs: 60 },
+            SeqPlan { geo: images::G12V2, images: vec!["data", "compressed", "backing"], cfgs: vec!["small", "default"], depth: 3, secs: 60 },
         ]
     };
     let oracles = Oracles { c01: true, c02: true, c03: true, c16: true, c18: true, ..Default::default() };
